@@ -247,6 +247,10 @@ func c17A(c *core.Case) {
 		c.Count("A_multi_segment", 1)
 	}
 	if path == "recover" {
+		if res.Aborted && !res.Finalized && !sqlitePlaybackRestores(mon.DBDir(n, "db"), ps, want) {
+			sqliteUndetectable = true
+			c.Count("A_sqlite_rules_would_not_restore_either", 1)
+		}
 		watch.install(n)
 		ctx, cancel := context.WithTimeout(context.Background(), 20*time.Second)
 		err := n.Store.DB("db").Recover(ctx)
@@ -326,6 +330,10 @@ func c17A(c *core.Case) {
 				}
 			}
 		}
+		if res.Aborted && !res.Finalized && !sqliteUndetectable && !sqlitePlaybackRestores(filepath.Join(dir2, "dbs", "db"), ps, want) {
+			sqliteUndetectable = true
+			c.Count("A_sqlite_rules_would_not_restore_either", 1)
+		}
 		n2, err := drv.NewNode(drv.Config{Dir: dir, Candidate: true, Leaser: litefs.NewStaticLeaser(true, "localhost", "http://127.0.0.1:1"), PreOpen: func(nn *drv.Node) { watch.install(nn) }})
 		if err != nil {
 			if pe, ok := err.(*drv.PanicError); ok {
@@ -384,6 +392,35 @@ func c17A(c *core.Case) {
 	if c.Index < 8 {
 		c.Sample(detail)
 	}
+}
+
+// sqlitePlaybackRestores reports whether SQLite's own hot-journal playback rules,
+// applied to the journal and database bytes as they are on disk, restore want.
+// Where they do not (a state in which SQLite itself would not get the
+// pre-transaction image back, e.g. a stale later segment of a persistent journal
+// right behind a header whose first record was never written) the property has
+// nothing to promise about bytes; panics, hangs and exits are still judged.
+func sqlitePlaybackRestores(dbDir string, ps uint32, want *ref.Image) bool {
+	jb, err := os.ReadFile(filepath.Join(dbDir, "journal"))
+	if err != nil {
+		return true
+	}
+	dbb, _ := os.ReadFile(filepath.Join(dbDir, "database"))
+	pb := ref.PlayJournal(jb, ps)
+	exp := append([]byte(nil), dbb...)
+	if pb.Valid {
+		need := int(pb.OrigPages) * int(ps)
+		for len(exp) < need {
+			exp = append(exp, make([]byte, need-len(exp))...)
+		}
+		for pg, data := range pb.Pages {
+			if int(pg)*int(ps) <= len(exp) {
+				copy(exp[int(pg-1)*int(ps):], data)
+			}
+		}
+		exp = exp[:need]
+	}
+	return ref.ImageFromBytes(ps, exp).Diff(want) == ""
 }
 
 // copyTree copies a directory tree (regular files and directories).
